@@ -8,7 +8,8 @@ Implementation side (follows the code branch by branch):
                    separate invariant theorem (`C11_sorted`), not a subtype.
 * `lookupImpl`     `lookup_impl` (lib_mappings.rs:110-118): last entry with `start ≤ a`, then the end check.
 * `add`/`addSafe`  `add_mapping` (:55-87): removal range start, deletion of the keys in `[removalStart, end)`, insert.
-                   `addSafe = false` ⇔ `BTreeMap::range(start..end)` is called with `start > end` (it panics).
+                   `addSafe = false` ⇔ `BTreeMap::range(start..end)` is called with `start > end` on a map that owns a
+                   root node (it panics); `Table` = entries + that allocation flag.
 * `removeKey`/`removeOut`, `clear` (`step .clear`)    `remove_mapping` (:91-95), `clear` (:98-100).
 * `convertAddress` `convert_address` (:122-127) with the `as u32` truncation and the checked `u32` addition.
 * `processConvert`, `resolveFrame`   process.rs:84-101 (kernel table first), profile.rs:1163-1178 (`ReturnAddress`
@@ -67,10 +68,7 @@ def removalStart (mp : Map) (s : Nat) : Nat :=
   | some m => m.s
   | none => s
 
-/-- `BTreeMap::range(lo..hi)` panics when `lo > hi` (lib_mappings.rs:71); nothing else in `add_mapping` can fail -/
-def addSafe (mp : Map) (x : M) : Bool := removalStart mp x.s ≤ x.e
-
-/-- `add_mapping` (lib_mappings.rs:55-87) -/
+/-- `add_mapping` (lib_mappings.rs:55-87) on the entries -/
 def add (mp : Map) (x : M) : Map := insert x (removeRange (removalStart mp x.s) x.e mp)
 
 /-- `remove_mapping` (lib_mappings.rs:91-95): the map afterwards -/
@@ -79,23 +77,38 @@ def removeKey (mp : Map) (s : Nat) : Map := mp.filter (fun m => m.s != s)
 /-- `remove_mapping`: the returned entry -/
 def removeOut (mp : Map) (s : Nat) : Option M := mp.find? (fun m => m.s == s)
 
+/-- A `LibMappings` value: the entries plus whether the `BTreeMap` currently owns a root node
+(`false` after `new()` / `clear()`, `true` once something was inserted — it stays `true` when the last entry is
+removed). The flag is observable at exactly one excluded point, see `addSafe`. -/
+structure Table where
+  map : Map
+  alloc : Bool
+deriving Repr, DecidableEq
+
+def Table.empty : Table := ⟨[], false⟩
+
+/-- `BTreeMap::range(lo..hi)` (lib_mappings.rs:71) panics when `lo > hi` — but std only validates the bounds when
+the map has a root node; nothing else in `add_mapping` can fail. With a non-empty range (`start < end`) this is
+always `true` (`C11_no_panic`). -/
+def addSafe (t : Table) (x : M) : Bool := !t.alloc || removalStart t.map x.s ≤ x.e
+
 inductive Op
   | add (x : M)
   | remove (s : Nat)
   | clear
 deriving Repr, DecidableEq
 
-/-- one call; a panicking `add_mapping` leaves the map untouched (the panic happens before the first mutation) -/
-def step (mp : Map) : Op → Map
-  | .add x => if addSafe mp x then add mp x else mp
-  | .remove s => removeKey mp s
-  | .clear => []
+/-- one call; a panicking `add_mapping` leaves the table untouched (the panic happens before the first mutation) -/
+def step (t : Table) : Op → Table
+  | .add x => if addSafe t x then ⟨add t.map x, true⟩ else t
+  | .remove s => ⟨removeKey t.map s, t.alloc⟩
+  | .clear => Table.empty
 
-def stepSafe (mp : Map) : Op → Bool
-  | .add x => addSafe mp x
+def stepSafe (t : Table) : Op → Bool
+  | .add x => addSafe t x
   | _ => true
 
-def run (ops : List Op) : Map := ops.foldl step []
+def run (ops : List Op) : Table := ops.foldl step Table.empty
 
 /-- 2^32 -/
 def u32Lim : Nat := 4294967296
@@ -167,13 +180,13 @@ inductive POp
 deriving Repr, DecidableEq
 
 structure PState where
-  kernel : Map
-  procs : Nat → Map
+  kernel : Table
+  procs : Nat → Table
 
-def PState.init : PState := ⟨[], fun _ => []⟩
+def PState.init : PState := ⟨Table.empty, fun _ => Table.empty⟩
 
-def PState.setProc (st : PState) (p : Nat) (mp : Map) : PState :=
-  ⟨st.kernel, fun q => if q = p then mp else st.procs q⟩
+def PState.setProc (st : PState) (p : Nat) (t : Table) : PState :=
+  ⟨st.kernel, fun q => if q = p then t else st.procs q⟩
 
 def pstep (st : PState) : POp → PState
   | .kadd x => ⟨step st.kernel (.add x), st.procs⟩
